@@ -619,11 +619,27 @@ def evaluate(case, native):
                     return 'none', [0] * dims
                 dynamic = bool(job.get('pickups')) and bool(job.get('deliveries'))
                 key = {'pickup': 'pickups', 'delivery': 'deliveries', 'replacement': 'replacements', 'service': 'services'}[act['type']]
-                amounts = (job[key][0].get('demand') or [0] * dims)
+                tasks_ = job[key]
+                n_tasks_ = sum(len(job.get(x) or []) for x in ('pickups', 'deliveries', 'replacements', 'services'))
+                pair_ = n_tasks_ == 2 and len(job.get('pickups') or []) == 1 and len(job.get('deliveries') or []) == 1
+                task_ = tasks_[0]
+                if n_tasks_ >= 2 and not pair_ and act.get('jobTag') is not None:
+                    # multi-task job: the activity refers to the task that carries its tag
+                    task_ = next((t_ for t_ in tasks_ if any(pl.get('tag') == act['jobTag'] for pl in t_['places'])), tasks_[0])
+                amounts = (task_.get('demand') or [0] * dims)
                 kind = {'pickup': 'dp' if dynamic else 'sp', 'delivery': 'dd' if dynamic else 'sd', 'replacement': 'spd', 'service': 'none'}[act['type']]
                 return kind, amounts
             every = [demand(a) for s_ in stops for a in s_['activities'] if a['type'] not in ('departure', 'arrival')]
             ok = True
+            for s_ in stops:
+                for a in s_['activities']:
+                    job_ = jobs_by_id.get(a.get('jobId'))
+                    if job_ is None or a['type'] in ('departure', 'arrival'):
+                        continue
+                    n_t = sum(len(job_.get(x) or []) for x in ('pickups', 'deliveries', 'replacements', 'services'))
+                    is_pair = n_t == 2 and len(job_.get('pickups') or []) == 1 and len(job_.get('deliveries') or []) == 1
+                    if n_t >= 2 and not is_pair and a.get('jobTag') is None:
+                        ok = False      # documented: activities of a multi-task job must carry the tag of their task
             for d in range(dims):
                 sdel = sum(a[d] for k, a in every if k in ('sd', 'spd'))
                 spick = sum(a[d] for k, a in every if k in ('sp', 'spd'))
@@ -643,7 +659,7 @@ def evaluate(case, native):
                         ok = False
                 if any(s_['load'][d] > cap[d] for s_ in stops):
                     ok = False
-            reported = has('load exceeds capacity', 'load mismatch')
+            reported = has('load exceeds capacity', 'load mismatch', 'must have tag', 'cannot match activity to job place')
         else:
             return None, f'unknown checker rule {case["rule"]}'
         if reported == ok:
